@@ -329,6 +329,27 @@ func (w *seqWorld) exec(c *seqCmd) {
 			}
 			w.after(in)
 		}
+	case "sunset":
+		// the read-only date: AcceptingSubmissions() compares the wall clock with NotAfterLimit + ReadOnlyAfter;
+		// V = milliseconds from now at which the log becomes read-only (<= 0: it already is)
+		if in.cfg != nil {
+			w.ev("%d sunset %d", in.id, c.V)
+			in.cfg.NotAfterLimit = time.Now().Add(-ctlog.ReadOnlyAfter + time.Duration(c.V)*time.Millisecond)
+			in.sunsetArmed = true
+			w.st.Count("op:sunset")
+		}
+	case "waitstop":
+		// let a RunSequencer-driven instance run (granting its operations) until its loop has returned
+		for k := 0; k < 4000 && in.main != nil && !w.sched.isFinished(in.main); k++ {
+			ops := w.sched.pendingOf(in.main)
+			if len(ops) == 0 {
+				w.sched.settle(in.main)
+				time.Sleep(time.Millisecond)
+				continue
+			}
+			w.grantOp(in, ops[0], outOK)
+		}
+		w.after(in)
 	case "submit":
 		if !in.alive || (in.stopped && !in.runseqMode) || c.Entry >= len(w.entries) {
 			return
